@@ -114,6 +114,7 @@ func runC20(c *mon.Ctx) {
 			}
 			reject := func(kind string, o tokens.TokenOptions, t string) {
 				c.Count("must_reject_checks")
+				c.Eval()
 				c.Nontrivial(fmt.Sprintf("%x|%s|%s|%d|%s", secret, server, user, dur, kind))
 				if err := tokens.ValidateToken(o, t); err == nil {
 					c.Failf("token:accepts:"+kind, "ValidateToken accepted a token it must refuse (%s); issued for %q duration %d, validated for %q", kind, user, dur, o.UserID)
